@@ -270,3 +270,39 @@ Fixpoint chain_run (q : quirks) (stages : list stage) (r : hreq) (envs : list (Z
       choose q p l {| tk := t; dr := d; ky := stage_key p hk r |} :: chain_run q st' r en'
   | _, _ => []
   end.
+
+(** ** generations of a pool watching the same service (pipeline update: the new generation's
+    pool subscribes BEFORE the old generation's pool stops its watcher).
+    The registry keeps its service watchers in a map keyed by watcher id; a watcher's stop
+    function removes the entry with ITS id.  The id a subscription obtains is explicit in the
+    event ([uuid.NewString()] in the code: never issued twice). *)
+Inductive wev :=
+| WSub (g : nat) (id : nat) (listing : list instance)   (* generation g subscribes, gets id, is primed with the current listing *)
+| WStop (g : nat)                                      (* generation g stops its watcher *)
+| WReport (r : list instance).                         (* the registry reports the service's instances *)
+
+Record rstate := { subs : list (nat * nat);   (* id -> generation whose watcher is registered under it *)
+                   held : list (nat * nat) }. (* generation -> the id its stop function will delete *)
+
+Fixpoint nlookup (k : nat) (l : list (nat * nat)) : option nat :=
+  match l with
+  | [] => None
+  | (k', v) :: t => if Nat.eqb k k' then Some v else nlookup k t
+  end.
+
+Definition drop_id (id : nat) (l : list (nat * nat)) : list (nat * nat) :=
+  filter (fun x => negb (Nat.eqb (fst x) id)) l.
+
+(** one event: new state and the deliveries (generation, report) it causes *)
+Definition rstep (st : rstate) (e : wev) : rstate * list (nat * list instance) :=
+  match e with
+  | WSub g id l => ({| subs := (id, g) :: drop_id id (subs st); held := (g, id) :: held st |}, [(g, l)])
+  | WStop g => match nlookup g (held st) with
+               | Some id => ({| subs := drop_id id (subs st); held := held st |}, [])
+               | None => (st, [])
+               end
+  | WReport r => (st, map (fun x => (snd x, r)) (subs st))
+  end.
+
+Definition rfinal (st : rstate) (evs : list wev) : rstate := fold_left (fun s e => fst (rstep s e)) evs st.
+Definition rinit : rstate := {| subs := []; held := [] |}.
